@@ -32,21 +32,99 @@ type vC02BCase struct {
 	Qcap  int        `json:"qcap"`
 	Fail  []int      `json:"fail"` // 1-based indices of the counted datastore commits that fail
 	Steps []vC02Step `json:"steps"`
+	// trickle mode (GapMs > 0): the i-th pin/unpin step is submitted at i*GapMs after the start, nothing is waited for in
+	// between; step.C is the index of one of 64 dedicated CIDs; for every accepted operation the time it was accepted and
+	// the time its effect showed in State() are recorded, and an age-limit commit may be late by at most SlackMs
+	// The timetable is given by K (number of operations) and UnpinAt (positions at which an earlier pin, by then in effect,
+	// is unpinned instead of a new CID being pinned), not by Steps: the input stays small and the runner's shrinker (which
+	// deletes list elements) cannot turn a clear delay into a marginal one by dropping operations.
+	GapMs   int   `json:"gap_ms,omitempty"`
+	SlackMs int   `json:"slack_ms,omitempty"`
+	K       int   `json:"k,omitempty"`
+	UnpinAt []int `json:"unpin_at,omitempty"`
+	// never generated; only from a given input (a probe): 1-based indices of the element queries of the crdt set
+	// (issued by set.Rmv and InSet) that fail. The model has no such failure: the case is reported only if the code panics.
+	FailQuery []int `json:"fail_query,omitempty"`
 }
 
 const vc02TakeTimeout = 6 * time.Second // positive expectation: the worker takes an accepted item (normally microseconds)
 
-func vc02GenOps(r *vRand, n int, hot int) []vC02Step {
+// last[c] = variant of the last pin of CID c generated so far in this case (-1: none): a pin repeats it with a fair
+// probability, so that "already stored as given", "unpin then the identical pin" and "pin, unpin, identical pin" occur
+// inside one batch and across batches
+func vc02GenOpsL(r *vRand, n int, hot int, last []int) []vC02Step {
 	var out []vC02Step
 	for i := 0; i < n; i++ {
 		c := r.intn(vc02NCids)
 		if r.chance(55) {
 			c = hot
 		}
-		if r.chance(65) {
-			out = append(out, vC02Step{T: "pin", C: c, V: r.intn(vc02NVariants)})
-		} else {
+		switch {
+		case last[c] >= 0 && r.chance(22): // unpin immediately followed by the identical pin
+			out = append(out, vC02Step{T: "unpin", C: c}, vC02Step{T: "pin", C: c, V: last[c]})
+			i++
+		case r.chance(65):
+			v := r.intn(vc02NVariants)
+			if last[c] >= 0 && r.chance(35) {
+				v = last[c]
+			}
+			last[c] = v
+			out = append(out, vC02Step{T: "pin", C: c, V: v})
+		default:
 			out = append(out, vC02Step{T: "unpin", C: c})
+		}
+	}
+	return out
+}
+
+func vc02NewLast() []int {
+	l := make([]int, vc02NCids)
+	for i := range l {
+		l[i] = -1
+	}
+	return l
+}
+
+// a trickle: k operations, one every gap, gap < MaxBatchAge, MaxBatchSize out of reach (or, one time in four, small
+// enough to interleave size commits); k is chosen so that a worker that measured the batch age from the newest operation
+// would keep the first one waiting for at least 4 x (age + slack)
+func vC02BTrickle(r *vRand) vC02BCase {
+	age := []int{150, 200, 250}[r.intn(3)]
+	gap := r.rng(age/4, age/2)
+	slack := 2 * age
+	if slack < 400 {
+		slack = 400
+	}
+	k := (4*(age+slack)-age+gap-1)/gap + 1
+	if k > vc02NTCids {
+		k = vc02NTCids
+	}
+	c := vC02BCase{Size: 1000, AgeMs: age, Qcap: 200, GapMs: gap, SlackMs: slack, K: k}
+	if r.chance(25) {
+		c.Size = r.rng(5, 9)
+	}
+	back := (age+slack)/gap + 3
+	for i := back; i < k; i++ {
+		if r.chance(15) {
+			c.UnpinAt = append(c.UnpinAt, i)
+		}
+	}
+	return c
+}
+
+// the steps of a trickle case: position i pins CID i, or (i in UnpinAt) unpins a CID pinned at least age+slack earlier
+func (c *vC02BCase) trickleSteps() []vC02Step {
+	back := (c.AgeMs+c.SlackMs)/c.GapMs + 3
+	un := map[int]bool{}
+	for _, i := range c.UnpinAt {
+		un[i] = true
+	}
+	var out []vC02Step
+	for i := 0; i < c.K; i++ {
+		if un[i] && i >= back {
+			out = append(out, vC02Step{T: "unpin", C: (i * 7) % (i - back + 1)})
+		} else {
+			out = append(out, vC02Step{T: "pin", C: i})
 		}
 	}
 	return out
@@ -66,6 +144,8 @@ func vc02GenFails(r *vRand, max int) []int {
 
 func vC02BGen(r *vRand) (vC02BCase, string) {
 	hot := r.intn(vc02NCids)
+	last := vc02NewLast()
+	vc02GenOps := func(r *vRand, n int, hot int) []vC02Step { return vc02GenOpsL(r, n, hot, last) }
 	switch x := r.intn(100); {
 	case x < 12: // batching disabled
 		c := vC02BCase{Size: 0, AgeMs: 0, Qcap: 10, Fail: vc02GenFails(r, 8)}
@@ -103,7 +183,12 @@ func vC02BGen(r *vRand) (vC02BCase, string) {
 				c.Steps = append(c.Steps, vC02Step{T: "age"})
 			}
 		}
-		c.Steps = append(c.Steps, vC02Step{T: "age"}, vC02Step{T: "pin", C: hot, V: r.intn(vc02NVariants)}, vC02Step{T: "age"})
+		fin := vC02Step{T: "pin", C: hot, V: r.intn(vc02NVariants)}
+		if last[hot] >= 0 && r.chance(50) { // the CID is committed with this very pin: unpin + identical pin in one batch
+			c.Steps = append(c.Steps, vC02Step{T: "age"}, vC02Step{T: "pin", C: hot, V: last[hot]}, vC02Step{T: "age"}, vC02Step{T: "unpin", C: hot})
+			fin.V = last[hot]
+		}
+		c.Steps = append(c.Steps, vC02Step{T: "age"}, fin, vC02Step{T: "age"})
 		return c, "both"
 	default: // queue smaller than the burst: the worker is held inside Add/Rm while a burst arrives
 		c := vC02BCase{Size: r.rng(1, 4), AgeMs: 3600000, Qcap: r.rng(1, 3), Fail: vc02GenFails(r, 6)}
@@ -156,6 +241,15 @@ func vC02BBoundary(i int) (vC02BCase, string) {
 		{Size: 0, AgeMs: 0, Qcap: 10, Steps: []vC02Step{unpin(0), pin(0, 1), unpin(0), unpin(0), pin(0, 1), pin(0, 1)}},
 		{Size: 2, AgeMs: 30, Qcap: 10, Steps: []vC02Step{}},
 		{Size: 2, AgeMs: 30, Qcap: 10, Steps: []vC02Step{{T: "release"}, age, pin(0, 1), {T: "release"}, age}},
+		// a CID committed with a pin, then unpin + the identical pin inside one batch (closed by age, by size), and
+		// pin / unpin / identical pin; the identical pin alone; another pin then the stored one again
+		{Size: 10, AgeMs: 30, Qcap: 10, Steps: []vC02Step{pin(0, 1), age, unpin(0), pin(0, 1), age}},
+		{Size: 2, AgeMs: 3600000, Qcap: 10, Steps: []vC02Step{pin(0, 1), pin(1, 1), unpin(0), pin(0, 1)}},
+		{Size: 3, AgeMs: 3600000, Qcap: 10, Steps: []vC02Step{pin(0, 6), pin(1, 2), pin(2, 3), pin(0, 6), unpin(0), pin(0, 6)}},
+		{Size: 10, AgeMs: 30, Qcap: 10, Steps: []vC02Step{pin(0, 1), unpin(0), pin(0, 1), age, unpin(0), pin(0, 1), unpin(1), age}},
+		{Size: 10, AgeMs: 30, Qcap: 10, Steps: []vC02Step{pin(0, 1), age, pin(0, 2), pin(0, 1), age}},
+		{Size: 10, AgeMs: 30, Qcap: 10, Steps: []vC02Step{pin(0, 1), pin(1, 3), age, pin(1, 3), pin(0, 1), pin(2, 1), age}},
+		{Size: 0, AgeMs: 0, Qcap: 10, Steps: []vC02Step{pin(0, 1), unpin(0), pin(0, 1), pin(0, 1)}},
 		// direct writes with failing commits
 		{Size: 0, AgeMs: 0, Qcap: 10, Fail: []int{1, 3}, Steps: []vC02Step{pin(0, 1), pin(0, 2), pin(1, 1), unpin(0), unpin(0)}},
 		{Size: 0, AgeMs: 0, Qcap: 10, Fail: []int{2, 4}, Steps: []vC02Step{pin(0, 1), pin(0, 2), pin(1, 1), unpin(0), unpin(0), unpin(1)}},
@@ -169,7 +263,14 @@ type vC02BObs struct {
 	Calls  []string  `json:"calls"`
 	Commit []string  `json:"ds_commits"`
 	Err    string    `json:"err,omitempty"`
+	// trickle mode: per accepted operation (accepted at, in effect at) in microseconds since the start of the case;
+	// vc02Never when the effect never showed; how many times the case was measured
+	Lat      [][2]int64 `json:"lat,omitempty"`
+	Measured int        `json:"measured,omitempty"`
+	Panics   []string   `json:"panics,omitempty"`
 }
+
+const vc02Never = int64(1) << 50
 
 func (c *vC02BCase) sanitize() {
 	if c.Qcap < 1 {
@@ -184,22 +285,95 @@ func (c *vC02BCase) sanitize() {
 	if c.AgeMs > 0 && c.AgeMs < 10 {
 		c.AgeMs = 10
 	}
+	if c.GapMs < 0 {
+		c.GapMs = 0
+	}
+	if c.GapMs > 0 && (c.Size == 0 || c.AgeMs == 0 || c.AgeMs >= 60000) {
+		c.GapMs = 0 // a trickle needs batching with an age limit that can be reached
+	}
+	if c.GapMs > 0 {
+		if c.SlackMs < 1 {
+			c.SlackMs = 1
+		}
+		c.Fail = nil
+		if c.K > vc02NTCids {
+			c.K = vc02NTCids
+		}
+		if c.K < 0 {
+			c.K = 0
+		}
+		c.Steps = c.trickleSteps()
+	} else {
+		c.SlackMs = 0
+	}
+}
+
+func (c *vC02BCase) trickle() bool { return c.GapMs > 0 }
+
+// the worst (in effect - accepted) of a trickle observation exceeds age + slack
+func (c *vC02BCase) late(obs vC02BObs) bool {
+	lim := int64(c.AgeMs+c.SlackMs) * 1000
+	for _, l := range obs.Lat {
+		if l[1]-l[0] > lim {
+			return true
+		}
+	}
+	return false
+}
+
+// a wall-clock clause counts only when it fails three times in a row (DESIGN 1.7)
+func vC02BRunMeasured(t *testing.T, c vC02BCase) (obs vC02BObs, ranks *vc02Ranks) {
+	c.sanitize()
+	for i := 1; ; i++ {
+		obs, ranks = vC02BRun(t, c)
+		obs.Measured = i
+		if !c.trickle() || obs.Err != "" || len(obs.Panics) > 0 || !c.late(obs) || i >= 3 {
+			return
+		}
+	}
 }
 
 func vC02BRun(t *testing.T, c vC02BCase) (obs vC02BObs, ranks *vc02Ranks) {
 	c.sanitize()
+	mkPin := func(s vC02Step) (*api.Pin, int) { // the pin of a step and its key in the Coq term
+		if c.trickle() {
+			k := vc02TKeyBase + ((s.C%vc02NTCids)+vc02NTCids)%vc02NTCids
+			p := api.PinCid(vc02KeyCid(k))
+			p.ReplicationFactorMin, p.ReplicationFactorMax = -1, -1
+			return p, k
+		}
+		return vc02Pin(s.C, s.V), s.C
+	}
 	var vals [][]byte
 	for _, s := range c.Steps {
 		if s.T == "pin" {
-			vals = append(vals, vc02PinBytes(vc02Pin(s.C, s.V)))
+			pn, _ := mkPin(s)
+			vals = append(vals, vc02PinBytes(pn))
 		}
 	}
 	ranks = newVC02Ranks(vals)
 	age := time.Duration(c.AgeMs) * time.Millisecond
 	p := newVC02Peer(t, c.Size, age, c.Qcap, c.Fail, true, nil)
 	defer p.shutdown()
+	if len(c.FailQuery) > 0 {
+		p.fds.mu.Lock()
+		p.fds.failQ = map[int]bool{}
+		for _, i := range c.FailQuery {
+			p.fds.failQ[i] = true
+		}
+		p.fds.mu.Unlock()
+	}
 	batching := p.g != nil
 	ctx := context.Background()
+	t0 := time.Now()
+	if batching {
+		p.g.t0 = t0 // nothing has been submitted yet: the worker has not touched the gate
+	}
+	since := func() int64 { return int64(time.Since(t0) / time.Microsecond) }
+	if c.trickle() && batching {
+		vC02BTrickleRun(c, p, ranks, since, &obs)
+		return
+	}
 	var trace []*vc02Ev // direct mode only; with batching the gate owns the trace
 	nAccepted := 0
 	stuck := false
@@ -215,7 +389,7 @@ func vC02BRun(t *testing.T, c vC02BCase) (obs vC02BObs, ranks *vc02Ranks) {
 	}
 	markStuck := func() {
 		p.g.mu.Lock()
-		p.g.trace = append(p.g.trace, &vc02Ev{Kind: "stuck", done: true})
+		p.g.trace = append(p.g.trace, &vc02Ev{Kind: "stuck", At: since(), done: true})
 		p.g.mu.Unlock()
 		stuck = true
 	}
@@ -227,7 +401,7 @@ func vC02BRun(t *testing.T, c vC02BCase) (obs vC02BObs, ranks *vc02Ranks) {
 		switch s.T {
 		case "pin", "unpin":
 			op := &vc02Op{Pin: s.T == "pin", C: s.C, V: s.V}
-			pin := vc02Pin(s.C, s.V)
+			pin, _ := mkPin(s)
 			if op.Pin {
 				op.R = ranks.of(vc02PinBytes(pin))
 			} else {
@@ -236,22 +410,23 @@ func vC02BRun(t *testing.T, c vC02BCase) (obs vC02BObs, ranks *vc02Ranks) {
 			octx := context.WithValue(ctx, vc02CtxKey{}, id)
 			if !batching {
 				p.fds.resetLastFail()
-				var err error
-				if op.Pin {
-					err = p.cc.LogPin(octx, pin)
-				} else {
-					err = p.cc.LogUnpin(octx, pin)
-				}
+				at := since()
+				err := vc02Guard(&obs, "LogPin/LogUnpin (direct)", func() error {
+					if op.Pin {
+						return p.cc.LogPin(octx, pin)
+					}
+					return p.cc.LogUnpin(octx, pin)
+				})
 				kind := p.fds.takeLastFail()
 				if err != nil && kind == "" {
 					kind = "other:" + err.Error()
 				}
-				trace = append(trace, &vc02Ev{Kind: "direct", ID: id, Op: op, Ok: err == nil, Pres: kind, done: true})
+				trace = append(trace, &vc02Ev{Kind: "direct", ID: id, Op: op, Ok: err == nil, Pres: kind, At: at, done: true})
 				id++
 				continue
 			}
 			g := p.g
-			ev := &vc02Ev{Kind: "enq", ID: id, Op: op}
+			ev := &vc02Ev{Kind: "enq", ID: id, Op: op, At: since()}
 			g.mu.Lock()
 			g.trace = append(g.trace, ev) // before the send: the worker's Add/Rm of this item is recorded after it
 			held := g.holding
@@ -307,6 +482,14 @@ func vC02BRun(t *testing.T, c vC02BCase) (obs vC02BObs, ranks *vc02Ranks) {
 					markStuck()
 				}
 			}
+		case "wait": // never generated (probe inputs): let the age timer of an empty batch expire; bounded
+			if batching && age < time.Minute {
+				d := 3 * age
+				if d > 500*time.Millisecond {
+					d = 500 * time.Millisecond
+				}
+				time.Sleep(d)
+			}
 		case "age":
 			if batching && age < time.Minute {
 				g := p.g
@@ -324,7 +507,7 @@ func vC02BRun(t *testing.T, c vC02BCase) (obs vC02BObs, ranks *vc02Ranks) {
 				})
 				if !ok {
 					g.mu.Lock()
-					g.trace = append(g.trace, &vc02Ev{Kind: "noage", done: true})
+					g.trace = append(g.trace, &vc02Ev{Kind: "noage", At: since(), done: true})
 					g.mu.Unlock()
 				}
 			}
@@ -347,6 +530,197 @@ func vC02BRun(t *testing.T, c vC02BCase) (obs vC02BObs, ranks *vc02Ranks) {
 		g.mu.Unlock()
 	}
 	obs.Trace = trace
+	vC02BFinish(p, ranks, &obs)
+	return
+}
+
+// vc02Guard runs a call of the code under test made by the harness goroutine; a panic is recorded, not propagated
+func vc02Guard(obs *vC02BObs, what string, f func() error) (err error) {
+	if vc02NoRecover {
+		return f()
+	}
+	defer func() {
+		if r := recover(); r != nil {
+			obs.Panics = append(obs.Panics, fmt.Sprintf("%s: %v", what, r))
+			err = errVC02Panic
+		}
+	}()
+	return f()
+}
+
+// vC02BTrickleRun: the operations are submitted on a fixed timetable; a poller watches State() for the effect of each
+func vC02BTrickleRun(c vC02BCase, p *vc02Peer, ranks *vc02Ranks, since func() int64, obs *vC02BObs) {
+	ctx := context.Background()
+	g := p.g
+	age := time.Duration(c.AgeMs) * time.Millisecond
+	slack := time.Duration(c.SlackMs) * time.Millisecond
+	st, err := p.cc.State(ctx)
+	if err != nil {
+		obs.Err = "state: " + err.Error()
+		return
+	}
+	type watch struct {
+		key  int
+		pin  bool
+		acc  int64
+		seen int64
+	}
+	var mu sync.Mutex
+	var ws []*watch
+	inEffect := map[int]bool{} // key -> its pin has been seen in State()
+	stop := make(chan struct{})
+	pollDone := make(chan struct{})
+	pollOnce := func() (pending int) {
+		mu.Lock()
+		cur := append([]*watch{}, ws...)
+		mu.Unlock()
+		for _, w := range cur {
+			if w.seen != 0 {
+				continue
+			}
+			has, err := st.Has(ctx, vc02KeyCid(w.key))
+			if err == nil && has == w.pin {
+				now := since()
+				mu.Lock()
+				w.seen = now
+				if w.pin {
+					inEffect[w.key] = true
+				} else {
+					delete(inEffect, w.key)
+				}
+				mu.Unlock()
+			} else {
+				pending++
+			}
+		}
+		return
+	}
+	go func() {
+		defer close(pollDone)
+		for {
+			select {
+			case <-stop:
+				return
+			default:
+			}
+			pollOnce()
+			time.Sleep(time.Millisecond)
+		}
+	}()
+	start := time.Now()
+	nAccepted := 0
+	id := 0
+	pinned := map[int]bool{}
+	for i, s := range c.Steps {
+		if s.T != "pin" && s.T != "unpin" {
+			continue
+		}
+		if d := time.Until(start.Add(time.Duration(i*c.GapMs) * time.Millisecond)); d > 0 {
+			time.Sleep(d) // pacing of the input, not a wait for an effect
+		}
+		k := vc02TKeyBase + ((s.C%vc02NTCids)+vc02NTCids)%vc02NTCids
+		mu.Lock()
+		eff := inEffect[k]
+		mu.Unlock()
+		if s.T == "pin" && pinned[k] {
+			continue // one pin per CID: its effect is then unambiguous
+		}
+		if s.T == "unpin" && !eff {
+			continue // only a pin that is already in effect is unpinned
+		}
+		pn := api.PinCid(vc02KeyCid(k))
+		pn.ReplicationFactorMin, pn.ReplicationFactorMax = -1, -1
+		op := &vc02Op{Pin: s.T == "pin", C: k}
+		if op.Pin {
+			op.R = ranks.of(vc02PinBytes(pn))
+			pinned[k] = true
+		}
+		octx := context.WithValue(ctx, vc02CtxKey{}, id)
+		ev := &vc02Ev{Kind: "enq", ID: id, Op: op, At: since()}
+		g.mu.Lock()
+		g.trace = append(g.trace, ev)
+		g.mu.Unlock()
+		if op.Pin {
+			err = p.cc.LogPin(octx, pn)
+		} else {
+			err = p.cc.LogUnpin(octx, pn)
+		}
+		acc := since()
+		g.mu.Lock()
+		ev.Ok = err == nil
+		ev.done = true
+		g.mu.Unlock()
+		id++
+		if err == nil {
+			nAccepted++
+			mu.Lock()
+			ws = append(ws, &watch{key: k, pin: op.Pin, acc: acc})
+			mu.Unlock()
+		}
+	}
+	// positive expectation: every accepted operation comes into effect (long timeout; the bound itself is checked on the
+	// recorded times, not by this wait)
+	vc02WaitFor(4*(age+slack)+3*time.Second, func() bool {
+		mu.Lock()
+		defer mu.Unlock()
+		for _, w := range ws {
+			if w.seen == 0 {
+				return false
+			}
+		}
+		return true
+	})
+	close(stop)
+	<-pollDone
+	// the worker has taken everything and a last batch, if any, gets its age commit
+	settled := vc02WaitFor(vc02TakeTimeout, func() bool {
+		g.mu.Lock()
+		defer g.mu.Unlock()
+		return g.nAddDone == nAccepted && !g.expect && !g.inCall
+	})
+	if !settled {
+		g.mu.Lock()
+		g.trace = append(g.trace, &vc02Ev{Kind: "stuck", At: since(), done: true})
+		g.mu.Unlock()
+	} else {
+		g.mu.Lock()
+		cur, n0 := g.cur, g.nCommit
+		g.mu.Unlock()
+		if cur > 0 && !vc02WaitFor(4*age+1500*time.Millisecond, func() bool {
+			g.mu.Lock()
+			defer g.mu.Unlock()
+			return g.nCommit > n0 && !g.inCall
+		}) {
+			g.mu.Lock()
+			g.trace = append(g.trace, &vc02Ev{Kind: "noage", At: since(), done: true})
+			g.mu.Unlock()
+		}
+	}
+	pollOnce()
+	for _, w := range ws {
+		seen := w.seen
+		if seen == 0 {
+			seen = vc02Never
+		}
+		obs.Lat = append(obs.Lat, [2]int64{w.acc, seen})
+	}
+	g.mu.Lock()
+	obs.Trace = append([]*vc02Ev{}, g.trace...)
+	g.mu.Unlock()
+	vC02BFinish(p, ranks, obs)
+}
+
+// final pinset, tracker calls, datastore commit log
+func vC02BFinish(p *vc02Peer, ranks *vc02Ranks, obsp *vC02BObs) {
+	ctx := context.Background()
+	obs := *obsp
+	defer func() { *obsp = obs }()
+	trace := obs.Trace
+	if p.g != nil {
+		p.g.mu.Lock()
+		obs.Panics = append(obs.Panics, p.g.panics...)
+		p.g.mu.Unlock()
+	}
 	for _, e := range trace {
 		if strings.HasPrefix(e.Pres, "other:") {
 			obs.Err = "unexpected error: " + e.Pres
@@ -382,11 +756,17 @@ func vC02BRun(t *testing.T, c vC02BCase) (obs vC02BObs, ranks *vc02Ranks) {
 	return
 }
 
+func vc02CoqKey(c int) int {
+	if c >= vc02TKeyBase {
+		return c
+	}
+	return c % vc02NCids
+}
 func vc02CoqOp(o *vc02Op) string {
 	if o.Pin {
-		return fmt.Sprintf("(WPin %d %d)", o.C%vc02NCids, o.R)
+		return fmt.Sprintf("(WPin %d %d)", vc02CoqKey(o.C), o.R)
 	}
-	return fmt.Sprintf("(WUnpin %d)", o.C%vc02NCids)
+	return fmt.Sprintf("(WUnpin %d)", vc02CoqKey(o.C))
 }
 func vc02CoqPres(s string) string {
 	switch s {
@@ -404,20 +784,28 @@ func vC02BTerm(c vC02BCase, obs vC02BObs) string {
 	c.sanitize()
 	var evs []string
 	for _, e := range obs.Trace {
+		at := e.At
+		if at < 0 {
+			at = 0
+		}
+		var ev string
 		switch e.Kind {
 		case "enq":
-			evs = append(evs, fmt.Sprintf("TEnq %d %s %s", e.ID, vc02CoqOp(e.Op), cqBool(e.Ok)))
+			ev = fmt.Sprintf("TEnq %d %s %s", e.ID, vc02CoqOp(e.Op), cqBool(e.Ok))
 		case "add":
-			evs = append(evs, fmt.Sprintf("TAdd %d %s", e.ID, cqBool(e.Ok)))
+			ev = fmt.Sprintf("TAdd %d %s", e.ID, cqBool(e.Ok))
 		case "commit":
-			evs = append(evs, "TCommit "+vc02CoqPres(e.Pres))
+			ev = "TCommit " + vc02CoqPres(e.Pres)
 		case "direct":
-			evs = append(evs, fmt.Sprintf("TDirect %d %s %s %s", e.ID, vc02CoqOp(e.Op), vc02CoqPres(e.Pres), cqBool(e.Ok)))
+			ev = fmt.Sprintf("TDirect %d %s %s %s", e.ID, vc02CoqOp(e.Op), vc02CoqPres(e.Pres), cqBool(e.Ok))
 		case "noage":
-			evs = append(evs, "TNoAge")
+			ev = "TNoAge"
 		case "stuck":
-			evs = append(evs, "TStuck")
+			ev = "TStuck"
+		default:
+			continue
 		}
+		evs = append(evs, fmt.Sprintf("(%d, %s)", at, ev))
 	}
 	var fin []string
 	for _, f := range obs.Final {
@@ -425,7 +813,12 @@ func vC02BTerm(c vC02BCase, obs vC02BObs) string {
 	}
 	batching := c.Size > 0 && c.AgeMs > 0
 	nofire := c.AgeMs >= 60000
-	return fmt.Sprintf("(mk_h1 %s %s %d %d %s %s %s)", cqBool(batching), cqBool(nofire), c.Qcap, c.Size, cqList(evs), cqList(fin), cqList(obs.Calls))
+	var lat []string
+	for _, l := range obs.Lat {
+		lat = append(lat, fmt.Sprintf("(%d, %d)", l[0], l[1]))
+	}
+	return fmt.Sprintf("(mk_h1 %s %s %d %d %d %d %s %s %s %s)", cqBool(batching), cqBool(nofire), c.Qcap, c.Size,
+		int64(c.AgeMs)*1000, int64(c.SlackMs)*1000, cqList(evs), cqList(lat), cqList(fin), cqList(obs.Calls))
 }
 
 func vC02BNontrivial(c vC02BCase, obs vC02BObs) bool {
@@ -433,8 +826,15 @@ func vC02BNontrivial(c vC02BCase, obs vC02BObs) bool {
 	perCid := map[int]int{}
 	for _, s := range c.Steps {
 		if s.T == "pin" || s.T == "unpin" {
-			perCid[s.C%vc02NCids]++
+			if c.GapMs > 0 {
+				perCid[s.C%vc02NTCids]++
+			} else {
+				perCid[s.C%vc02NCids]++
+			}
 		}
+	}
+	if c.GapMs > 0 && len(obs.Lat) >= 8 {
+		return true
 	}
 	for _, n := range perCid {
 		if n >= 2 {
@@ -466,9 +866,12 @@ func TestVerifC02Batch(t *testing.T) {
 		for i := 0; i < n; i++ {
 			var c vC02BCase
 			var k string
-			if i%4 == 3 {
+			switch {
+			case i%24 == 5 && i/24 < 48: // at most 48 per run: each takes 2-3 s of wall clock
+				c, k = vC02BTrickle(r), "trickle"
+			case i%4 == 3:
 				c, k = vC02BBoundary(i/4 + int(seed))
-			} else {
+			default:
 				c, k = vC02BGen(r)
 			}
 			cases = append(cases, c)
@@ -488,15 +891,51 @@ func TestVerifC02Batch(t *testing.T) {
 		go func(i int) {
 			defer wg.Done()
 			defer func() { <-sem }()
-			obs, _ := vC02BRun(t, cases[i])
+			// several cases are in flight at once: each leaves its own marker, so that a crash of the process (a panic on
+			// a goroutine of the code under test that the harness cannot recover) names the candidates
+			key := fmt.Sprintf("b%d", i)
+			vCaseStartKey(key, cases[i])
+			obs, _ := vC02BRunMeasured(t, cases[i])
+			vCaseDoneKey(key)
 			results[i] = res{obs}
 		}(i)
 	}
 	wg.Wait()
+	// at most two panic reports: those of the shortest scripts
+	nPanic, panicLimit := 0, 1<<30
+	{
+		var lens []int
+		for i := range cases {
+			if len(results[i].obs.Panics) > 0 {
+				lens = append(lens, len(cases[i].Steps))
+			}
+		}
+		sort.Ints(lens)
+		if len(lens) > 2 {
+			panicLimit = lens[1]
+		}
+	}
 	for i, c := range cases {
 		obs := results[i].obs
+		if len(obs.Panics) > 0 && (len(c.Steps) > panicLimit || nPanic >= 2) {
+			out.count("panic")
+			continue
+		}
+		if len(obs.Panics) > 0 {
+			nPanic++
+			// cannot go through Coq: the code under test panicked while this case ran
+			b, _ := json.Marshal(map[string]interface{}{"signature": "panic-in-code-under-test", "detail": obs.Panics,
+				"harness": "TestVerifC02Batch", "case": map[string]interface{}{"input": c},
+				"meaning": "LogPin/LogUnpin/batchWorker panicked (recovered by the harness; in the deployed binary the process dies)"})
+			fmt.Printf("VERIF-DIRECT-VIOLATION %s\n", b)
+			out.count("panic")
+			continue
+		}
 		if obs.Err != "" {
 			t.Fatalf("case %d: %s (input %+v)", i, obs.Err, c)
+		}
+		if c.GapMs > 0 {
+			out.count(fmt.Sprintf("trickle_measured_%d", obs.Measured))
 		}
 		out.count("kind_" + kinds[i])
 		for _, e := range obs.Trace {
